@@ -33,6 +33,8 @@ class Spec:
             if h.__constraints__: return ('union', tuple(h.__constraints__))
             return ('any',)
         if hasattr(h, '__supertype__'): return ('alias', h.__supertype__)
+        if isinstance(h, getattr(t, 'TypeAliasType', ())): return ('alias', h.__value__)          # PEP 695 `type X = ...`
+        if h is getattr(t, 'LiteralString', None): return ('cls', str)
         o = t.get_origin(h); a = t.get_args(h)
         if o is None:
             if h is t.NoReturn or h is t.Never: return ('never',)
@@ -40,6 +42,9 @@ class Spec:
                 ob = getattr(h, '__orig_bases__', None)
                 return ('cls', h)
             raise NotImplementedError(f'spec: unsupported hint {h!r}')
+        if isinstance(o, getattr(t, 'TypeAliasType', ())):                                       # subscripted PEP 695 alias: parameters substituted
+            return ('alias', o.__value__[a if len(a) != 1 else a[0]])
+        if o is t.Final or o is t.ClassVar: return ('alias', a[0])
         if o is t.Union or o is types.UnionType: return ('union', a)
         if o is t.Literal: return ('literal', a)
         if o is t.Annotated: return ('annotated', a[0], h.__metadata__)
